@@ -42,6 +42,13 @@ THM_MIX = [
     "GE.Mix.scanText_printText",
     "GE.Mix.printed_not_bb",
 ]
+THM_TAG = [
+    "GE.TagTree.parse_print",
+    "GE.TagTree.print_fixpoint",
+    "GE.TagTree.parse_print_parse",
+    "GE.TagTree.nb_parse",
+    "GE.TagTree.print_strip",
+]
 WARN = 2
 TABLE = {k[:-1]: v for k, v in html.entities.html5.items() if k.endswith(";")}
 
@@ -226,8 +233,12 @@ def run(chk):
                        "the tag / attribute printer and scope-name mangling (oracle only); (3) mixture_roundtrip: the value parser reads the printed form of ANY sequence "
                        "of text pieces and bindings back as the same pieces (text containing {{, text ending in { before a binding, <, \", &, look-alike references), "
                        "assuming only that the binding parser reads back each printed binding (POk: the part covered by (1) and the parser oracle)"]
-    chk.model_tie([("GE.Thm.C14", THEOREMS), ("GE.Thm.C14Expr", THM_EXPR), ("GE.Thm.C14Mix", THM_MIX), ("GE.Thm.C14Parse", THM_PARSE)])
+    chk.model_tie([("GE.Thm.C14", THEOREMS), ("GE.Thm.C14Expr", THM_EXPR), ("GE.Thm.C14Mix", THM_MIX), ("GE.Thm.C14Parse", THM_PARSE),
+                   ("GE.Thm.C14Tag", THM_TAG)])
     rng = chk.rng.fork("c14")
+    # ---- (model) the structure of tags: wx:if groups, wx:for, <block>, comments, control attributes in any combination -------------------
+    from . import tagtree
+    tagtree.stream(chk, rng.fork("tagtree"), 1500 if quick else 40000)
     # ---- (model) escaping and entity decoding ---------------------------------------------------------
     alpha = ["<", ">", "&", "\"", "'", ";", "#", "x", "a", "l", "t", "m", "p", "q", "u", "o", "1", "2", "{", "}", " ", "é", "\U0001F600", "&amp;", "&lt;", "&quot;", "&#60;",
              "&#x26;", "&frac12;", "&NotEqualTilde;", "&bogus;", "&#xD800;", "&#1114112;", "&#99999999999;", "&#x;", "&#;", "&;", "&am", "&AMP;", "&amp", "\n", "\0"]
